@@ -167,6 +167,7 @@ func (c C19) Run(t *tape.Tape, opt core.RunOpt) (res core.Result) {
 				sb.FailFrom = 1 + t.Draw(3)
 				sb.Dropped = t.Bool(1, 2)
 				sb.TimeoutErr = t.Bool(1, 3)
+				sb.EmptyGroupErr = !sb.TimeoutErr && t.Bool(1, 4)
 			}
 			sb.ByValue = t.Bool(1, 4)
 			w.AddSub(sb)
@@ -264,14 +265,25 @@ func (c C19) Run(t *tape.Tape, opt core.RunOpt) (res core.Result) {
 				fail("wrong_recipients_or_order", "publish(%q): delivered to %v, the live matching subscribers in registration order are %v", tp, gotSend, exp)
 				return
 			}
+			// failed deliveries whose error says something (a subscriber may
+			// return an error group without members: the statement does not ask the
+			// publish to report what has no content, so either outcome is taken)
+			spoken, mute := 0, 0
+			for _, sid := range failed {
+				if w.Subs[sid].EmptyGroupErr {
+					mute++
+				} else {
+					spoken++
+				}
+			}
 			if viaMut {
 				wantResp := `{"data":{"post":` + strconv.Itoa(len(exp)) + `}}`
-				if len(failed) > 0 || resolveErrs > 0 {
+				if spoken > 0 || resolveErrs > 0 {
 					if !strings.Contains(out, `"errors"`) {
 						fail("publish_error_missing", "a delivery failed but the mutation response carries no error: %s", out)
 						return
 					}
-				} else if out != wantResp {
+				} else if out != wantResp && !(mute > 0 && strings.Contains(out, `"errors"`)) {
 					fail("publish_count_wrong", "mutation response %s, expected %s", out, wantResp)
 					return
 				}
@@ -280,7 +292,7 @@ func (c C19) Run(t *tape.Tape, opt core.RunOpt) (res core.Result) {
 					fail("publish_count_wrong", "publish(%q) reported %d, %d subscribers matched", tp, cnt, len(exp))
 					return
 				}
-				if perr != (len(failed) > 0 || resolveErrs > 0) {
+				if perr != (spoken > 0 || resolveErrs > 0) && !(mute > 0 && spoken == 0 && resolveErrs == 0) {
 					fail("publish_error_mismatch", "publish(%q): error=%v but failed deliveries=%v, selections that hit an unresolvable field=%d", tp, perr, failed, resolveErrs)
 					return
 				}
